@@ -1,4 +1,4 @@
-CONSTANTS MaxR = 2  AlphaName = "abgf"  RevSubsume = FALSE  NoFinalCheck = FALSE  UnionChildren = FALSE
+CONSTANTS MaxR = 2  AlphaName = "abgf"  RevSubsume = FALSE  NoFinalCheck = FALSE  UnionChildren = FALSE  FirstPosOnly = FALSE  BFamily = "all2"
 SPECIFICATION Spec
 INVARIANT Exact Sound Complete
 CHECK_DEADLOCK FALSE
